@@ -331,7 +331,7 @@ def run(ctx):
                 ctx.case(("Fault." + how, code, gen.trepr(data), gen.trepr(rid), cname))
 
     # random deep params / results
-    nr = ctx.pick(3000, 50000)
+    nr = ctx.pick(3000, 300000)
     for i in range(nr):
         cname, cfg = rng.choice(cfgs)
         version = rng.choice(VERSIONS)
